@@ -236,3 +236,42 @@ func flowsToSpan(p *Program, v ssa.Value, depth int, seen map[ssa.Value]bool) bo
 	}
 	return false
 }
+
+// SPAN-LEN: no inline span boundary is the length of the whole root source.
+func ruleSpanLen(c *Ctx) {
+	c.Rule("SPAN-LEN", "The source an inline parser state works on is the Source of the whole root block, which also holds the container's markers, sibling blocks and following lines. Its length is therefore never a boundary of an inline node: no value len(state.source) (or len of the reader's source) reaches the Start or End of a Span, in the function itself or through its callers. A fall-back `return len(state.source)` for \"end of the text\" gives the text after the last node of a heading inside a block quote a span that runs over the following lines.")
+	p := c.P
+	n, bad := 0, 0
+	for _, fn := range p.Funcs {
+		if fn.Pkg != p.CMs || fn.Blocks == nil {
+			continue
+		}
+		eachInstr(fn, func(in ssa.Instruction) {
+			call, ok := in.(*ssa.Call)
+			if !ok {
+				return
+			}
+			cl, ok := isBuiltinCall(call, "len")
+			if !ok {
+				return
+			}
+			fa, ok := isLoadOfFieldAny(cl.Call.Args[0], "source")
+			if !ok {
+				return
+			}
+			tn, _, _ := fieldAddrInfo(fa)
+			if tn != "inlineState" && tn != "inlineByteReader" {
+				return
+			}
+			n++
+			if flowsToSpan(p, call, 0, map[ssa.Value]bool{}) {
+				bad++
+				c.Viol("SPAN-LEN", fmt.Sprintf("%s:len(%s.source)", shortFuncName(fn), tn), call.Pos(), "the length of the whole root source can become a boundary of an inline node's span")
+			}
+		})
+	}
+	c.Analysed["len_of_inline_source_sites"] = n
+	if bad == 0 {
+		c.OK("SPAN-LEN", "all", token.NoPos, fmt.Sprintf("%d uses of len(source) in the inline parser; none reaches a span", n))
+	}
+}
